@@ -66,7 +66,7 @@ def main(argv=None):
         rc = ctx.finish(rule=mod.RULE, exhaustive=getattr(mod, "EXHAUSTIVE", False))
         print("%s %s tier=%s seed=%d: states=%d traces=%d violations=%d known=%d wall=%.0fs" % (
             "FAIL" if rc else "PASS", pid, a.tier, seed, ctx.cov["states"],
-            ctx.cov["traces_validated_against_impl"], len(ctx.violations), len(ctx.known_hits),
+            ctx.cov["traces_validated_against_impl"], getattr(ctx, "nviol", 0), len(ctx.known_hits),
             __import__("time").time() - ctx.t0))
         return rc
     except core.Machinery as e:
